@@ -130,17 +130,23 @@ def _walk(rnd, npl, nsamp, k, flow=None):
 
 
 def _multi(rnd):
-    npl = rnd.randint(2, 5)
+    """the policy is handed plates with the given sample sets - some in the batch, the rest remaining - and must refuse iff one of them
+    holds more than one sample (whatever state the batch is in: empty, a sample in progress, complete)"""
+    npl = rnd.randint(2, 6)
     so = [[rnd.randrange(3)] for _ in range(npl)]
     if rnd.random() < 0.7:
-        so[rnd.randrange(npl)] = rnd.choice([[0, 1], [0, 1, 0], [1, 0, 0, 1], [2, 0, 2]])    # mixed plates, also with equal first and last rows
+        so[rnd.randrange(npl)] = rnd.choice([[0, 1], [0, 1, 0], [1, 0, 0, 1], [2, 0, 2], [1, 2], [2, 1, 1]])    # mixed plates, also with equal first and last rows
     ob = [False] * npl
     scr = _screen(so, ob, rnd)
-    rem = sorted(scr.plates, key=lambda p: p.plate_id)
-    st, r = outcome(policy(2).filter_eligible_plates, [], rem, np.random.default_rng(0))
+    plates = sorted(scr.plates, key=lambda p: p.plate_id)
+    nb = rnd.choice([0, 0, 1, 1, 2])
+    single = [p for p in plates if len(set(int(x) for x in p.sample_ids)) == 1]
+    batch = rnd.sample(single, min(nb, len(single))) if rnd.random() < 0.8 else rnd.sample(plates, min(nb, len(plates)))
+    rem = [p for p in plates if p not in batch]
+    st, r = outcome(policy(rnd.choice([2, 2, 3])).filter_eligible_plates, batch, rem, np.random.default_rng(0))
     raised = st != "ok" and r.startswith("ValueError")
     return {"kind": "multi", "k": 2, "sampleOf": [0], "observed": [False], "steps": [], "flow": "prospective", "batch0": [],
-            "plate_samples": [sorted(set(int(x) for x in p.sample_ids)) for p in rem], "raised": raised,
+            "plate_samples": [sorted(set(int(x) for x in p.sample_ids)) for p in plates], "raised": raised,
             "other_error": (st != "ok" and not raised)}
 
 
@@ -175,7 +181,7 @@ def run(ctx):
     traces = state_traces
     for _ in range(150 if ctx.quick else 2000):
         traces.append(_walk(rnd, rnd.randint(1, 12), rnd.randint(1, 4), rnd.randint(1, 4)))
-    for _ in range(20 if ctx.quick else 100):
+    for _ in range(80 if ctx.quick else 600):
         traces.append(_multi(rnd))
     _decide(ctx, traces)
 
